@@ -14,7 +14,9 @@ if git apply --numstat $out/patch.diff | awk '{print $3}' | grep -q '_test.go\|v
 git apply $out/patch.diff
 go build ./... 2>/tmp/seed/$id.build.err || { echo "REJECTED: does not build"; git checkout -q -- .; exit 1; }
 # full suite, compared against the baseline's stable_pass list
-go test -json -vet=off -count=1 -timeout 25m ./... > /tmp/seed/$id.c$k.test.json 2>/dev/null
+# packages that listen on fixed ports (pkg/p2p, pkg/rpc) are run under a lock so that parallel confirmations do not collide
+go test -json -vet=off -count=1 -timeout 25m $(go list ./... | grep -v '/pkg/p2p$\|/pkg/rpc$') > /tmp/seed/$id.c$k.test.json 2>/dev/null
+flock /tmp/seed/ports.lock go test -json -vet=off -count=1 -timeout 25m ./pkg/p2p ./pkg/rpc >> /tmp/seed/$id.c$k.test.json 2>/dev/null
 python3 - /tmp/seed/$id.c$k.test.json <<'PY' || { cd $wt; git checkout -q -- .; git clean -fdq; exit 1; }
 import json,sys
 stable=set(json.load(open('/root/.vp/BASELINE.json'))['stable_pass'])
